@@ -159,7 +159,7 @@ CaseResult run_case(Tape &t, long sweep)
     if (k.alive && self_at < entry) death = model::T_INF;  // (cannot happen: scheduled actions up to `entry` have run)
     int death_status = k.alive ? self_status : k.expected_status;
     auto fail = [&](const std::string &sig, const std::string &m) { res.fail(sig, "op " + std::to_string(oi) + ": " + m); };
-    uint32_t waitpid0 = vs_counts.calls[VS_WAITPID], poll0 = vs_counts.calls[VS_POLL], kill0 = vs_counts.calls[VS_KILL];
+    uint32_t waitpid0 = vs_counts.calls[VS_WAITPID], kill0 = vs_counts.calls[VS_KILL];
     size_t ep0 = w.episodes.size();
     h = mix(h, (uint64_t) o.kind * 8 + (uint64_t) (have_status ? 1 : 0) + (uint64_t) (k.alive ? 2 : 0));
 
@@ -178,7 +178,7 @@ CaseResult run_case(Tape &t, long sweep)
       if (have_status) {
         calls_after_status++;
         if (r != status) fail("status-changed", "wait returned " + std::to_string(r) + " after the status " + std::to_string(status) + " had been returned");
-        else if (ret_at != entry || vs_counts.calls[VS_WAITPID] != waitpid0 || vs_counts.calls[VS_POLL] != poll0) fail("cached-status-not-immediate", "a wait after the status was returned went back to the kernel (waitpid/poll) or took time");
+        else if (ret_at != entry || vs_counts.calls[VS_WAITPID] != waitpid0) fail("cached-status-not-immediate", "a wait after the status was returned tried to reap again or took time");
       } else if (death != model::T_INF && (death < end || (death == end && r >= 0))) {
         if (r < 0) fail("wait-missed-exit", "the child ended within the window but wait returned " + std::to_string(r));
         else if (r != death_status) fail("wrong-status", "wait returned " + std::to_string(r) + ", the child ended with " + std::to_string(death_status));
@@ -218,7 +218,7 @@ CaseResult run_case(Tape &t, long sweep)
       if (have_status) {
         calls_after_status++;
         if (r != status) fail("status-changed", "stop returned " + std::to_string(r) + " after the status " + std::to_string(status) + " had been returned");
-        else if (ret_at != entry || vs_counts.calls[VS_WAITPID] != waitpid0 || vs_counts.calls[VS_POLL] != poll0 || vs_counts.calls[VS_KILL] != kill0) fail("cached-status-not-immediate", "a stop after the status was returned went back to the kernel (waitpid/poll/kill) or took time");
+        else if (ret_at != entry || vs_counts.calls[VS_WAITPID] != waitpid0 || vs_counts.calls[VS_KILL] != kill0) fail("cached-status-not-immediate", "a stop after the status was returned tried to reap or signal again, or took time");
       } else {
         bool ok = false;
         for (const model::StopExpect *e : { &e0, &e1 }) {
